@@ -555,6 +555,48 @@ macro_rules! public_tag_grid {
                 if up.map_or(true, |u| !u.ptr_eq(s)) {
                     report("C11", "C11|timestamp-visible", "WeakSnapshot::upgrade of a loaded pointer is not ptr_eq the loaded Snapshot".into());
                 }
+                // compare-exchange family: an expected value that carries another internal stamp (a
+                // never-stored Rc's snapshot, or the same pointer as loaded at any other epoch) matches
+                for other in [0usize, (s.verif_high_tag() + 1) & 15, (s.verif_high_tag() + 7) & 15] {
+                    let exp = s.verif_with_high_tag(other);
+                    mon::eval("tag-model");
+                    match cell.compare_exchange_tag(exp, tag ^ 1, SeqCst, SeqCst, &g) {
+                        Ok(_) => {
+                            let now = cell.load(SeqCst, &g);
+                            if now.tag() != (tag ^ 1) & low || now.verif_addr() != addr {
+                                report("C11", "C11|cas_tag-wrong-result", format!("compare_exchange_tag set tag {} addr {:#x}", now.tag(), now.verif_addr()));
+                            }
+                            // and back
+                            if cell.compare_exchange_tag(now.verif_with_high_tag(other), tag, SeqCst, SeqCst, &g).is_err() {
+                                report("C11", "C11|timestamp-visible-in-cas", format!("compare_exchange_tag back failed although only the internal stamp of `expected` ({}) differs from the stored one", other));
+                            }
+                        }
+                        Err(e) => report(
+                            "C11",
+                            "C11|timestamp-visible-in-cas",
+                            format!("compare_exchange_tag failed although expected is ptr_eq the content (expected stamp {}, stored stamp {}, current ptr_eq expected: {})", other, s.verif_high_tag(), e.current.ptr_eq(exp)),
+                        ),
+                    }
+                    match cell.compare_exchange(cell.load(SeqCst, &g).verif_with_high_tag(other), t.clone(), SeqCst, SeqCst, &g) {
+                        Ok(old) => drop(old),
+                        Err(e) => {
+                            report("C11", "C11|timestamp-visible-in-cas", format!("compare_exchange failed although expected is ptr_eq the content (expected stamp {})", other));
+                            drop(e.desired);
+                        }
+                    }
+                    let wexp = wcell.load(SeqCst, &g).verif_with_high_tag(other);
+                    match wcell.compare_exchange(wexp, w.clone(), SeqCst, SeqCst, &g) {
+                        Ok(old) => drop(old),
+                        Err(e) => {
+                            report("C11", "C11|timestamp-visible-in-cas", format!("AtomicWeak::compare_exchange failed although expected is ptr_eq the content (expected stamp {})", other));
+                            drop(e.desired);
+                        }
+                    }
+                    if wcell.compare_exchange_tag(wcell.load(SeqCst, &g).verif_with_high_tag(other), tag, SeqCst, SeqCst, &g).is_err() {
+                        report("C11", "C11|timestamp-visible-in-cas", format!("AtomicWeak::compare_exchange_tag failed although expected is ptr_eq the content (expected stamp {})", other));
+                    }
+                }
+                let s = cell.load(SeqCst, &g);
                 snaps.push((s.verif_high_tag(), s.tag(), s.is_null(), format!("{:p}", s), s.as_ref().map_or(0, |x| x.v)));
                 $out.case(h(&[21, $bits as u64, tag as u64, s.verif_high_tag() as u64]), || {
                     J::obj().set("type", stringify!($ty)).set("tag", tag).set("loaded_stamp", s.verif_high_tag())
@@ -936,6 +978,80 @@ fn hash2<T: Hash>(t: &T) -> u64 {
     s.finish()
 }
 
+/// A referent that is only PartialEq / PartialOrd, and not reflexive when it holds a NaN.
+pub struct FItem {
+    v: f64,
+    next: AtomicRc<FItem>,
+}
+unsafe impl RcObject for FItem {
+    fn pop_edges(&mut self, out: &mut Vec<Rc<Self>>) {
+        out.push(self.next.take());
+    }
+}
+impl PartialEq for FItem {
+    fn eq(&self, o: &Self) -> bool {
+        self.v == o.v
+    }
+}
+impl PartialOrd for FItem {
+    fn partial_cmp(&self, o: &Self) -> Option<std::cmp::Ordering> {
+        self.v.partial_cmp(&o.v)
+    }
+}
+
+fn c19_partial(out: &mut SeqOut) {
+    let mk = |v: f64| Rc::new(FItem { v, next: AtomicRc::null() });
+    let n1 = mk(f64::NAN);
+    let n2 = mk(f64::NAN);
+    let f1 = mk(1.0);
+    let f1b = mk(1.0);
+    let f2 = mk(2.0);
+    let mut pool: Vec<(String, Rc<FItem>)> = vec![
+        ("null".into(), Rc::null()),
+        ("null tag 1".into(), Rc::null().with_tag(1)),
+        ("NaN#1".into(), n1.clone()),
+        ("NaN#1 (clone)".into(), n1.clone()),
+        ("NaN#1 tag 3".into(), n1.clone().with_tag(3)),
+        ("NaN#2".into(), n2.clone()),
+        ("1.0#a".into(), f1.clone()),
+        ("1.0#a (clone)".into(), f1.clone()),
+        ("1.0#b".into(), f1b.clone()),
+        ("2.0".into(), f2.clone()),
+    ];
+    let cell = AtomicRc::from(n1.clone());
+    for i in 0..2 {
+        churn(1 + i);
+        let g = circ::cs();
+        let r = cell.load(SeqCst, &g).counted();
+        cell.store(r.clone(), SeqCst, &g);
+        pool.push((format!("NaN#1 loaded at stamp {}", cell.load(SeqCst, &g).verif_high_tag()), cell.load(SeqCst, &g).counted()));
+    }
+    let g = circ::cs();
+    let n = pool.len();
+    for i in 0..n {
+        for j in 0..n {
+            let (x, y) = (&pool[i].1, &pool[j].1);
+            let (ox, oy) = (x.as_ref(), y.as_ref());
+            let (sx, sy) = (x.snapshot(&g), y.snapshot(&g));
+            mon::eval("trait-model");
+            let mut bad = Vec::new();
+            if (x == y) != (ox == oy) || (sx == sy) != (ox == oy) || (x != y) != (ox != oy) {
+                bad.push(format!("==: Rc {} Snapshot {} model {}", x == y, sx == sy, ox == oy));
+            }
+            if x.partial_cmp(y) != ox.partial_cmp(&oy) || sx.partial_cmp(&sy) != ox.partial_cmp(&oy) {
+                bad.push(format!("partial_cmp: Rc {:?} Snapshot {:?} model {:?}", x.partial_cmp(y), sx.partial_cmp(&sy), ox.partial_cmp(&oy)));
+            }
+            if (x < y) != (ox < oy) || (x <= y) != (ox <= oy) || (x > y) != (ox > oy) || (x >= y) != (ox >= oy) || (sx < sy) != (ox < oy) || (sx <= sy) != (ox <= oy) || (sx >= sy) != (ox >= oy) {
+                bad.push(format!("comparison operators: Rc < {} <= {} > {} >= {}; model < {} <= {} > {} >= {}", x < y, x <= y, x > y, x >= y, ox < oy, ox <= oy, ox > oy, ox >= oy));
+            }
+            for b in bad {
+                report("C19", &format!("C19|partial-trait-model-mismatch|{}", b.split(':').next().unwrap_or("")), format!("[{}] vs [{}]: {}", pool[i].0, pool[j].0, b));
+            }
+            out.case(h(&[41, i as u64, j as u64]), || J::obj().set("a", pool[i].0.clone()).set("b", pool[j].0.clone()).set("eq", x == y).set("partial_cmp", format!("{:?}", x.partial_cmp(y))));
+        }
+    }
+}
+
 pub fn c19(_seed: u64) -> SeqOut {
     let mut out = SeqOut::new();
     mon::TRACK_OBJS.store(false, SeqCst);
@@ -1033,6 +1149,7 @@ pub fn c19(_seed: u64) -> SeqOut {
     }
     let _ = (a.as_ref().unwrap().salt, 0);
     drop(g);
+    c19_partial(&mut out);
     out.exhaustive = true;
     out.extra = J::obj().set("pool", J::A(pool.iter().map(|p| J::S(p.0.clone())).collect()));
     out
